@@ -630,6 +630,10 @@ func genDec(c *vh.Ctx) {
 					o2 := o
 					o2.noType = true
 					m = craft(p, typ, make([]byte, c.Intn(5)), o2)
+					// sealed with the key, so this is not tampering: zcrypto (like upstream) treats an
+					// empty inner plaintext as empty application data and rejects all-zero ones;
+					// the model comparison covers both, the tamper oracle does not apply
+					authenticated = false
 				case 8: // header only / short body
 					m = m[:5+c.Intn(min(len(m)-4, 3*max(p.BS, 4)))]
 					m[3], m[4] = byte((len(m)-5)>>8), byte(len(m)-5)
